@@ -75,6 +75,8 @@ def _stmts(accs, depth, max_stmts, calls=True, pure=True, carried=True, unit_wei
                 kinds += ["rep_unit"]
             if depth > 1 and carried:
                 kinds += ["tower", "region_value_unit"]
+            if depth > 1:
+                kinds += ["loop_if"]
             k = draw(st.sampled_from(kinds))
             if k == "tower":
                 # a loop nest of depth 2..3 on one accelerator with a unit at the head of every level and (optionally) a unit behind
@@ -97,6 +99,35 @@ def _stmts(accs, depth, max_stmts, calls=True, pure=True, carried=True, unit_wei
                     return body
 
                 out.append(["for", draw(_loop_hdr()), level(draw(st.integers(1, 2))), [], []])
+                continue
+            if k == "loop_if":
+                # a configuration before a loop; inside the loop a conditional whose branches write (almost) that configuration or
+                # something else, followed by a unit that changes it again; optionally all inside another loop with a unit behind the
+                # inner loop: what holds after the conditional differs between the first and later iterations
+                a = draw(st.integers(0, len(accs) - 1))
+                nf = len(accs[a][1])
+                base = [draw(_vref()) for _ in range(nf)]
+                lpool = base + [draw(_vref()), -1]
+
+                def variant(p):
+                    v = list(base)
+                    for j in range(nf):
+                        if draw(st.integers(0, 99)) < p:
+                            v[j] = draw(st.sampled_from(lpool))
+                    return ["unit", a, v, None]
+
+                th = [variant(20)] if draw(st.integers(0, 4)) else []
+                el = [variant(60)] if draw(st.booleans()) else []
+                inner_body = [["if", ["p", draw(st.integers(0, 3))], th, el], variant(70)]
+                if draw(st.booleans()):
+                    inner_body.insert(0, variant(50))
+                loop = ["for", draw(_loop_hdr()), inner_body, [], []]
+                if draw(st.booleans()):
+                    loop = ["for", draw(_loop_hdr()), [loop] + ([variant(70)] if draw(st.booleans()) else []), [], []]
+                out.append(variant(0))
+                out.append(loop)
+                if draw(st.booleans()):
+                    out.append(variant(30))
                 continue
             if k == "region_value_unit":
                 # a setup value computed by (nested) region ops from values defined right before: a pure op, then a loop carrying a
